@@ -160,6 +160,7 @@ func cmdCheck(args []string) {
 	timeout := 20
 	if *tier == "thorough" {
 		timeout = 120
+		confirmAll = true
 	}
 	evPath := filepath.Join(*verifDir, "evidence", *prop+".json")
 	replayDir := filepath.Join(*verifDir, "evidence", "replay")
@@ -193,6 +194,8 @@ func cmdCheck(args []string) {
 	}
 	sort.Strings(keys)
 	var reports []oblReport
+	byBackend := map[string]int{}
+	nConfirmed := 0
 	var fnNames []string
 	var violations, known []string
 	nObl, nDis := 0, 0
@@ -250,6 +253,16 @@ func cmdCheck(args []string) {
 				continue
 			}
 			reports = append(reports, oblReport{o.Name, o.Kind, c.Func, o.Status, o.Solver, o.Ms})
+			if o.Confirmed >= 2 {
+				nConfirmed++
+			}
+			if o.Status == "proved" {
+				be := o.Solver
+				if be == "" {
+					be = "simplifier"
+				}
+				byBackend[be]++
+			}
 			solverMs += o.Ms
 			if o.Status == "proved" {
 				if c.Bounded != "" {
@@ -316,19 +329,21 @@ func cmdCheck(args []string) {
 		"seed":        *seed,
 		"level":       "proof",
 		"coverage": map[string]interface{}{
-			"obligations":              nObl,
-			"discharged":               nDis,
-			"checker_cmd":              fmt.Sprintf("/verif/bin/govc check -prop %s -tier %s", *prop, *tier),
-			"trusted_base":             tb,
-			"functions_under_contract": fnNames,
-			"samples":                  samples,
-			"solver_ms_total":          solverMs,
-			"known_findings":           known,
-			"unsupported":              unsupportedFns,
-			"bounded":                  map[string]interface{}{"checks": boundedNotes, "obligations_passed": nBounded, "note": "bounded stand-ins: not counted in obligations/discharged"},
-			"thorough_only":            skippedTier,
-			"packages":                 pats,
-			"explanation":              "every obligation is a verification condition generated from /repo's current source and discharged by an SMT solver; obligations listed under known_findings are excluded from the counts",
+			"obligations":                      nObl,
+			"discharged":                       nDis,
+			"checker_cmd":                      fmt.Sprintf("/verif/bin/govc check -prop %s -tier %s", *prop, *tier),
+			"trusted_base":                     tb,
+			"functions_under_contract":         fnNames,
+			"samples":                          samples,
+			"solver_ms_total":                  solverMs,
+			"discharged_by_backend":            byBackend,
+			"confirmed_by_two_or_more_solvers": nConfirmed,
+			"known_findings":                   known,
+			"unsupported":                      unsupportedFns,
+			"bounded":                          map[string]interface{}{"checks": boundedNotes, "obligations_passed": nBounded, "note": "bounded stand-ins: not counted in obligations/discharged"},
+			"thorough_only":                    skippedTier,
+			"packages":                         pats,
+			"explanation":                      "every obligation is a verification condition generated from /repo's current source and discharged by an SMT solver; obligations listed under known_findings are excluded from the counts",
 		},
 		"assumptions": append([]string{"integers are fixed-width bit-vectors with Go semantics (no mathematical integers)",
 			"sequential execution of one function at a time; callees are replaced by their contracts",
